@@ -220,7 +220,7 @@ def run_record(case, r):
                             except Exception as e:
                                 r.fail('linearity.number-type.' + nm, dict(sub, entry=ename), 'malformed result: %s' % e)
             # ---- spectra scale with |alpha| and ignore the sign
-            for al in (-1.0, 2.0, -3.0, 1e-9, 1e9):
+            for al in (-1.0, 2.0, -3.0, 1e-9, 1e9, 1e-160, 1e150):
                 if abs(al) != 1 and abs(al) < 1e-3:
                     r.cls('tiny-scale')
                 sub = dict(base, alpha=al)
